@@ -40,6 +40,9 @@ func (g *FnGen) Generate() (err error) {
 		g.assume("true", g.wfFacts(v), "type")
 		g.assume("true", g.liveFact(g.st, v), "live")
 	}
+	for _, p := range fn.Params {
+		g.assumeTypeInv(g.vals[p], "true")
+	}
 	for _, fv := range fn.FreeVars {
 		v := g.mkVal(g.freshConst("fv_"+fv.Name(), g.D.sortOf(fv.Type())), fv.Type())
 		g.vals[fv] = v
@@ -76,9 +79,13 @@ func (g *FnGen) Generate() (err error) {
 		}
 	}
 
+	g.cover("entry", "true")
 	order := g.rpo()
 	for _, b := range order {
 		g.processBlock(b)
+	}
+	for k, r := range g.rets {
+		g.cover(fmt.Sprintf("return%d", k+1), r.guard)
 	}
 	g.finish()
 	return nil
@@ -435,6 +442,7 @@ func (g *FnGen) instr(ins ssa.Instruction) {
 	case *ssa.MakeClosure:
 		r := g.allocRef(x.Name(), guard)
 		g.vals[x] = Val{T: r, S: sortRef, Go: x.Type()}
+		g.checkBoundMethod(x)
 	case *ssa.Range:
 		g.vals[x] = Val{T: "nil", S: sortRef, Go: x.Type()}
 	case *ssa.Next:
@@ -521,6 +529,10 @@ func (g *FnGen) doAlloc(x *ssa.Alloc) {
 	r := g.allocRef(x.Name(), g.curGuard)
 	v := Val{T: r, S: sortRef, Go: x.Type()}
 	g.vals[x] = v
+	if tn := typeInvName(x.Type()); tn != "" && len(g.S.TypeInvs[tn]) > 0 && x.Heap {
+		rt := g.root()
+		rt.ownAllocs[tn] = append(rt.ownAllocs[tn], ownAlloc{r, g.curGuard})
+	}
 	// zero-initialise
 	switch u := et.Underlying().(type) {
 	case *types.Struct:
@@ -745,6 +757,7 @@ func (g *FnGen) doStore(x *ssa.Store) {
 	// frame / shared-state obligations
 	if p := g.placeOf(addr); p != nil && p.Base != "" && p.Idx == "" {
 		g.checkAssign(x, p, x.Pos())
+		g.noteInvWrite(x.Addr, p)
 	} else if p == nil {
 		// whole-struct store through a pointer
 		g.checkAssignRef(x, addr, x.Pos())
@@ -798,6 +811,7 @@ func (g *FnGen) doTypeAssert(x *ssa.TypeAssert) {
 			g.assume("true", g.wfFacts(res), "type")
 		}
 	}
+	g.assumeTypeInv(res, g.curGuard)
 	if x.CommaOk {
 		g.tuples[x] = []Val{res, {T: okT, S: sortBool, Go: types.Typ[types.Bool]}}
 		return
@@ -868,6 +882,7 @@ func (g *FnGen) doUnOp(x *ssa.UnOp) {
 		g.vals[x] = r
 		g.assume("true", g.wfFacts(r), "type")
 		g.assume(g.curGuard, g.liveFact(g.st, r), "live")
+		g.assumeTypeInv(r, g.curGuard)
 		if gl, ok := x.X.(*ssa.Global); ok {
 			g.globalFacts(gl, r)
 		}
@@ -1214,4 +1229,105 @@ func (g *FnGen) rangeIndexInvariants(h *ssa.BasicBlock) []autoInv {
 		}})
 	}
 	return out
+}
+
+// checkBoundMethod: a method value (x.M) captures its receiver when it is created and is later
+// called where no contract is visible. Preconditions labelled "recv-..." speak only about the
+// receiver and are discharged here; any other precondition cannot be carried by a method value.
+func (g *FnGen) checkBoundMethod(x *ssa.MakeClosure) {
+	fn := x.Fn.(*ssa.Function)
+	if !strings.HasSuffix(fn.Name(), "$bound") || len(x.Bindings) != 1 {
+		return
+	}
+	obj, ok := fn.Object().(*types.Func)
+	if !ok {
+		return
+	}
+	target := g.P.Prog.FuncValue(obj)
+	if target == nil {
+		return
+	}
+	ct := g.S.Contracts[fnName(target)]
+	if ct == nil {
+		return
+	}
+	recv := g.val(x.Bindings[0])
+	env := map[string]Val{"recv": recv}
+	if r := target.Signature.Recv(); r != nil && r.Name() != "" {
+		env[r.Name()] = recv
+	}
+	for i, rq := range ct.Requires {
+		label := clauseLabel(rq, i)
+		if strings.HasPrefix(label, "recv") {
+			ctx := &EvalCtx{g: g, env: env, st: g.st, oldSt: g.st, oldEnv: env, guard: g.curGuard}
+			g.obligeClause("requires", "methodvalue:"+fnName(target)+"/"+label, g.curGuard, rq, ctx, x.Pos())
+		} else {
+			g.oblige("requires", "methodvalue:"+fnName(target)+"/"+label, g.curGuard, "false", "a method value cannot carry the precondition: "+rq.Src, x.Pos())
+		}
+	}
+}
+
+// noteInvWrite records a write to a field of an object whose type carries an invariant, so that
+// the invariant is re-checked for that object when the function returns.
+func (g *FnGen) noteInvWrite(addr ssa.Value, p *Place) {
+	fa, ok := addr.(*ssa.FieldAddr)
+	if !ok {
+		return
+	}
+	for {
+		inner, ok := fa.X.(*ssa.FieldAddr)
+		if !ok {
+			break
+		}
+		fa = inner
+	}
+	tn := typeInvName(fa.X.Type())
+	if tn == "" || len(g.S.TypeInvs[tn]) == 0 {
+		return
+	}
+	r := g.root()
+	base := g.val(fa.X)
+	for _, a := range r.ownAllocs[tn] {
+		if a.term == base.T {
+			return
+		}
+	}
+	for _, d := range r.dirty[tn] {
+		if d.T == base.T {
+			return
+		}
+	}
+	r.dirty[tn] = append(r.dirty[tn], base)
+}
+
+// checkTypeInvsAtReturn emits, for one return site, the invariant obligations of every object
+// this function allocated or dirtied.
+func (g *FnGen) checkTypeInvsAtReturn(k int, rt retInfo) {
+	for _, tn := range sortedTypeNames(g.ownAllocs, g.dirty) {
+		t := lookupNamedType(g.P, tn)
+		if t == nil {
+			continue
+		}
+		pt := types.NewPointer(t)
+		n := 0
+		for _, a := range g.ownAllocs[tn] {
+			n++
+			v := Val{T: a.term, S: sortRef, Go: pt}
+			g.oblige("typeinv", fmt.Sprintf("%s:new#%d@ret%d", tn, n, k+1), and(rt.guard, a.guard), g.typeInvTerm(v, rt.st), "invariant of "+tn+" holds for the object allocated here", rt.pos)
+		}
+		for i, d := range g.dirty[tn] {
+			g.oblige("typeinv", fmt.Sprintf("%s:written#%d@ret%d", tn, i+1, k+1), and(rt.guard, not("(= "+d.T+" nil)")), g.typeInvTerm(d, rt.st), "invariant of "+tn+" is re-established for the object written here", rt.pos)
+		}
+	}
+}
+
+func sortedTypeNames(a map[string][]ownAlloc, b map[string][]Val) []string {
+	m := map[string]bool{}
+	for k := range a {
+		m[k] = true
+	}
+	for k := range b {
+		m[k] = true
+	}
+	return sortedKeys(m)
 }
